@@ -5,6 +5,7 @@ package main
 
 import (
 	"bytes"
+	"crypto/tls"
 	"encoding/json"
 	"errors"
 	"fmt"
@@ -41,6 +42,8 @@ type envCase struct {
 	HostEnv   []string   `json:"host_env"` // the environment of the hx child that runs this case
 	// PresetStdin: the caller's exec.Cmd already has a Stdin of its own (the launched command must still read the host's stdin)
 	PresetStdin bool `json:"preset_stdin,omitempty"`
+	// PresetTLS: the caller also supplied a TLSConfig of its own (the certificate goes out exactly when AutoMTLS is on, all the same)
+	PresetTLS bool `json:"preset_tls,omitempty"`
 }
 
 func init() {
@@ -78,6 +81,7 @@ func genEnv(o opts) [][]envCase {
 			c := envCase{CookieKey: hk.Pick(r, []string{"K", "BASIC_PLUGIN", "MAGIC_COOKIE"}), CookieVal: hk.Pick(r, []string{"V", "hello", "a=b", ""}),
 				CVersion: r.Intn(4), HasLegacy: r.Intn(2) == 0, Mux: r.Intn(2) == 0, AutoMTLS: r.Intn(3) == 0,
 				Launch: hk.Pick(r, []string{"cmd", "runnerfunc"}), Skip: r.Intn(2) == 0, HostEnv: host, PresetStdin: r.Intn(3) == 0}
+			c.PresetTLS = i%4 == 1
 			switch r.Intn(3) {
 			case 0:
 				c.MinPort, c.MaxPort = 0, 0
@@ -199,6 +203,9 @@ func runEnvChild(o opts) error {
 			GRPCBrokerMultiplex: c.Mux,
 			AutoMTLS:            c.AutoMTLS,
 			AllowedProtocols:    []plugin.Protocol{plugin.ProtocolNetRPC, plugin.ProtocolGRPC},
+		}
+		if c.PresetTLS {
+			cfg.TLSConfig = &tls.Config{ServerName: "localhost", MinVersion: tls.VersionTLS12}
 		}
 		if c.Group != "" || true {
 			cfg.UnixSocketConfig = &plugin.UnixSocketConfig{Group: c.Group, TempDir: tmpBase}
